@@ -1,394 +1,59 @@
-import Netpoll.Conn.Flush
+import Netpoll.Conn.FlushInvLemmas
 /-
 C08 – Flush completes exactly when the kernel has taken the data.
-Invariant proof over `Netpoll.Conn.Flush` for every interleaving of the flushing goroutine with poller write
-events, every kernel acceptance pattern, closers and the write timer.
+Invariant proof over `Netpoll.Conn.Flush` for every interleaving of the flushing goroutine (timed, untimed and
+expired-deadline calls) with poller write events, every kernel acceptance pattern, closers, the finalizer's
+`stop(flushing)` and the write timer.  The invariant `Good` is in Netpoll/Conn/FlushInv.lean, its preservation
+lemmas (generated, one per action) in Netpoll/Conn/FlushInvLemmas*.lean.  The model is tied to the code by
+`npdriver flush` (trace conformance of the real code under the controlled scheduler with a scripted kernel) and
+Netpoll.Tie.ReadFlush (sync-operation lists).
 
 KNOWN FINDING D9 (see known_findings.jsonl): after a Flush returned ErrWriteTimeout the poller may still
 drain the buffer and leave a stale `nil` in writeTrigger; a later Flush that hits EAGAIN then returns nil
-at once with data unsent.  `C08_D9_witness` proves this on the model; the positive theorem therefore
-carries the hypothesis "no earlier write timeout on this connection" and is named `_partial`.
+at once with data unsent.  `C08_D9_witness` proves this on the model (and corpus/C08/d09-stale-trigger-after-timeout.sched
+replays it on the real code); the positive theorem therefore carries the hypothesis "no earlier write timeout
+on this connection" and is named `_partial`.  `C08_D9_expired_deadline_witness` is the same finding reached through
+the expired-deadline branch of waitFlush, which returns ErrWriteTimeout without even removing the write interest.
 -/
 namespace Netpoll.Props.C08
 open Netpoll.Conn.Flush
-
-/-- the flusher is parked or about to park / leave the wait (it holds `flushing`, interest may be RW) -/
-def inCycle : FPc → Bool
-  | .arm | .wait _ | .tmoRecv | .tmoRw2r | .stopTimer _ | .unlock _ => true
-  | _ => false
-
-def timedArmed : FPc → Bool
-  | .wait true | .stopTimer _ => true
-  | _ => false
-
-/-- no Flush call is past its IsActive check -/
-def quiet : FPc → Bool
-  | .idle | .chkActive _ _ => true
-  | _ => false
-
-/-- the call has passed its IsActive check and has not yet taken anything from the trigger slot -/
-def preWait : FPc → Bool
-  | .lock _ _ | .submit _ _ | .chkEmpty1 _ | .send _ | .chkEmpty2 _ | .r2rw _ | .arm | .wait _ => true
-  | _ => false
-
-def Good (s : S) : Prop :=
-  -- accounting: nothing lost, nothing twice
-  (s.accepted + s.out = s.submitted) ∧
-  -- timer discipline
-  (¬ (s.timerRunning = true ∧ s.tick = true)) ∧
-  (timedArmed s.f = true → (s.timerRunning = true ∨ s.tick = true)) ∧
-  (timedArmed s.f = false → s.timerRunning = false ∧ s.tick = false) ∧
-  -- the lock
-  (s.flushing ≤ 1) ∧
-  ((s.f = .idle ∨ (∃ a t, s.f = .chkActive a t) ∨ (∃ a t, s.f = .lock a t)) → s.flushing = 0) ∧
-  ((¬ (s.f = .idle ∨ (∃ a t, s.f = .chkActive a t) ∨ (∃ a t, s.f = .lock a t))) → s.flushing = 1) ∧
-  (s.c = .trig → s.closing = 1) ∧ (s.slot = some .errClosed → s.closing = 1) ∧ (s.closing ≤ 1) ∧
-  -- as long as no Flush has ever timed out:
-  (s.timedOutEver = false →
-     -- the poller works on this connection's output only inside a wait cycle of the flusher
-     -- (or, once the connection is closed, after the flusher was woken by the close)
-     ((s.interestW = true ∨ s.p ≠ .idle) → inCycle s.f = true ∨ (s.closing ≠ 0 ∧ quiet s.f = true)) ∧
-     ((s.p = .rw2rCtl ∨ s.p = .rw2rTrig) → s.out = 0) ∧
-     (s.p = .rw2rTrig → s.interestW = false) ∧
-     ((s.p = .outputs ∨ s.p = .sendAck) → (s.f = .arm ∨ (∃ t, s.f = .wait t)) → s.interestW = true) ∧
-     (s.slot = some .done → s.out = 0 ∧ s.p = .idle ∧ s.interestW = false ∧ (inCycle s.f = true ∨ (s.closing ≠ 0 ∧ quiet s.f = true))) ∧
-     (∀ t, s.f = .r2rw t → s.out > 0) ∧
-     -- NO LOST WAKE-UP: a parked flusher always has a drain, a token or a closer coming
-     (∀ t, (s.f = .wait t ∨ (s.f = .arm ∧ t = true)) → s.slot = none →
-        (s.closing = 0 → s.interestW = true ∨ s.p = .rw2rTrig) ∧ (s.out = 0 → s.p = .rw2rCtl ∨ s.p = .rw2rTrig)) ∧
-     -- pending and past results are right
-     (∀ r, (s.f = .unlock r ∨ s.f = .stopTimer r) →
-        (r = .ok → s.out = 0 ∧ s.p = .idle ∧ s.interestW = false ∧ s.slot ≠ some .done) ∧ (r = .errClosed → s.closing ≠ 0) ∧ r ≠ .errConcurrent) ∧
-     (∀ x ∈ s.results, x.1 = .ok → x.2.1 = 0)) ∧
-  (preWait s.f = true → s.closing ≠ 0 → s.c = .trig ∨ s.slot ≠ none) ∧
-  (∀ r, s.f = .stopTimer r → s.timerRunning = true ∨ s.tick = true)
-
-theorem good_init : Good init := by
-  simp [Good, init, inCycle, timedArmed, quiet, preWait]
-
-/-- the step that ends a call (isolated: the generic tactic above needs help here) -/
-theorem good_finish (s : S) (r : Result) (h : Good s) (hf : s.f = .unlock r) : Good (finish s r) := by
-  obtain ⟨out, accepted, submitted, interestW, slot, flushing, closing, timerRunning, tick, f, p, c, timedOutEver, results, sat⟩ := s
-  simp only at hf
-  subst hf
-  cases r <;> simp only [finish, Good, inCycle, timedArmed, quiet, preWait] at * <;> grind
-
-theorem good_step_flush (s s' : S) (add : Nat) (timed : Bool) (h : Good s) (hs : step s (.flush add timed) = some s') : Good s' := by
-  obtain ⟨out, accepted, submitted, interestW, slot, flushing, closing, timerRunning, tick, f, p, c, timedOutEver, results, sat⟩ := s
-  simp only [step, trySend] at hs <;> (repeat' split at hs) <;> (try cases hs) <;>
-    (try (exact good_finish _ _ h rfl)) <;>
-    (try (simp only [Good, inCycle, timedArmed, quiet, preWait] at *
-          refine ⟨by grind, by grind, by grind, by grind, by grind, by grind, by grind, by grind, by grind, by grind, ?_, by grind, by grind⟩
-          intro ht
-          have h11 := h.2.2.2.2.2.2.2.2.2.2.1
-          refine ⟨by grind, by grind, by grind, by grind, by grind, by grind, by grind, by grind, by grind⟩))
-
-theorem good_step_flush2 (s s' : S)  (h : Good s) (hs : step s (.flush2) = some s') : Good s' := by
-  obtain ⟨out, accepted, submitted, interestW, slot, flushing, closing, timerRunning, tick, f, p, c, timedOutEver, results, sat⟩ := s
-  simp only [step, trySend] at hs <;> (repeat' split at hs) <;> (try cases hs) <;>
-    (try (exact good_finish _ _ h rfl)) <;>
-    (try (simp only [Good, inCycle, timedArmed, quiet, preWait] at *
-          refine ⟨by grind, by grind, by grind, by grind, by grind, by grind, by grind, by grind, by grind, by grind, ?_, by grind, by grind⟩
-          intro ht
-          have h11 := h.2.2.2.2.2.2.2.2.2.2.1
-          refine ⟨by grind, by grind, by grind, by grind, by grind, by grind, by grind, by grind, by grind⟩))
-
-theorem fstep_chkActive (s s' : S) (add : Nat) (timed : Bool) (h : Good s) (hf : s.f = .chkActive add timed) (hs : step s .fstep = some s') : Good s' := by
-  obtain ⟨out, accepted, submitted, interestW, slot, flushing, closing, timerRunning, tick, f, p, c, timedOutEver, results, sat⟩ := s
-  simp only at hf
-  subst hf
-  simp only [step] at hs <;> (repeat' split at hs) <;> (try cases hs) <;>
-    (try (exact good_finish _ _ h rfl)) <;>
-    (try (simp only [Good, inCycle, timedArmed, quiet, preWait] at *
-          refine ⟨by grind, by grind, by grind, by grind, by grind, by grind, by grind, by grind, by grind, by grind, ?_, by grind, by grind⟩
-          intro ht
-          have h11 := h.2.2.2.2.2.2.2.2.2.2.1
-          refine ⟨by grind, by grind, by grind, by grind, by grind, by grind, by grind, by grind, by grind⟩))
-
-theorem fstep_lock (s s' : S) (add : Nat) (timed : Bool) (h : Good s) (hf : s.f = .lock add timed) (hs : step s .fstep = some s') : Good s' := by
-  obtain ⟨out, accepted, submitted, interestW, slot, flushing, closing, timerRunning, tick, f, p, c, timedOutEver, results, sat⟩ := s
-  simp only at hf
-  subst hf
-  simp only [step] at hs <;> (repeat' split at hs) <;> (try cases hs) <;>
-    (try (exact good_finish _ _ h rfl)) <;>
-    (try (simp only [Good, inCycle, timedArmed, quiet, preWait] at *
-          refine ⟨by grind, by grind, by grind, by grind, by grind, by grind, by grind, by grind, by grind, by grind, ?_, by grind, by grind⟩
-          intro ht
-          have h11 := h.2.2.2.2.2.2.2.2.2.2.1
-          refine ⟨by grind, by grind, by grind, by grind, by grind, by grind, by grind, by grind, by grind⟩))
-
-theorem fstep_submit (s s' : S) (add : Nat) (timed : Bool) (h : Good s) (hf : s.f = .submit add timed) (hs : step s .fstep = some s') : Good s' := by
-  obtain ⟨out, accepted, submitted, interestW, slot, flushing, closing, timerRunning, tick, f, p, c, timedOutEver, results, sat⟩ := s
-  simp only at hf
-  subst hf
-  simp only [step] at hs <;> (repeat' split at hs) <;> (try cases hs) <;>
-    (try (exact good_finish _ _ h rfl)) <;>
-    (try (simp only [Good, inCycle, timedArmed, quiet, preWait] at *
-          refine ⟨by grind, by grind, by grind, by grind, by grind, by grind, by grind, by grind, by grind, by grind, ?_, by grind, by grind⟩
-          intro ht
-          have h11 := h.2.2.2.2.2.2.2.2.2.2.1
-          refine ⟨by grind, by grind, by grind, by grind, by grind, by grind, by grind, by grind, by grind⟩))
-
-theorem fstep_chkEmpty1 (s s' : S) (timed : Bool) (h : Good s) (hf : s.f = .chkEmpty1 timed) (hs : step s .fstep = some s') : Good s' := by
-  obtain ⟨out, accepted, submitted, interestW, slot, flushing, closing, timerRunning, tick, f, p, c, timedOutEver, results, sat⟩ := s
-  simp only at hf
-  subst hf
-  simp only [step] at hs <;> (repeat' split at hs) <;> (try cases hs) <;>
-    (try (exact good_finish _ _ h rfl)) <;>
-    (try (simp only [Good, inCycle, timedArmed, quiet, preWait] at *
-          refine ⟨by grind, by grind, by grind, by grind, by grind, by grind, by grind, by grind, by grind, by grind, ?_, by grind, by grind⟩
-          intro ht
-          have h11 := h.2.2.2.2.2.2.2.2.2.2.1
-          refine ⟨by grind, by grind, by grind, by grind, by grind, by grind, by grind, by grind, by grind⟩))
-
-theorem fstep_chkEmpty2 (s s' : S) (timed : Bool) (h : Good s) (hf : s.f = .chkEmpty2 timed) (hs : step s .fstep = some s') : Good s' := by
-  obtain ⟨out, accepted, submitted, interestW, slot, flushing, closing, timerRunning, tick, f, p, c, timedOutEver, results, sat⟩ := s
-  simp only at hf
-  subst hf
-  simp only [step] at hs <;> (repeat' split at hs) <;> (try cases hs) <;>
-    (try (exact good_finish _ _ h rfl)) <;>
-    (try (simp only [Good, inCycle, timedArmed, quiet, preWait] at *
-          refine ⟨by grind, by grind, by grind, by grind, by grind, by grind, by grind, by grind, by grind, by grind, ?_, by grind, by grind⟩
-          intro ht
-          have h11 := h.2.2.2.2.2.2.2.2.2.2.1
-          refine ⟨by grind, by grind, by grind, by grind, by grind, by grind, by grind, by grind, by grind⟩))
-
-theorem fstep_r2rw (s s' : S) (timed : Bool) (h : Good s) (hf : s.f = .r2rw timed) (hs : step s .fstep = some s') : Good s' := by
-  obtain ⟨out, accepted, submitted, interestW, slot, flushing, closing, timerRunning, tick, f, p, c, timedOutEver, results, sat⟩ := s
-  simp only at hf
-  subst hf
-  simp only [step] at hs <;> (repeat' split at hs) <;> (try cases hs) <;>
-    (try (exact good_finish _ _ h rfl)) <;>
-    (try (simp only [Good, inCycle, timedArmed, quiet, preWait] at *
-          refine ⟨by grind, by grind, by grind, by grind, by grind, by grind, by grind, by grind, by grind, by grind, ?_, by grind, by grind⟩
-          intro ht
-          have h11 := h.2.2.2.2.2.2.2.2.2.2.1
-          refine ⟨by grind, by grind, by grind, by grind, by grind, by grind, by grind, by grind, by grind⟩))
-
-theorem fstep_arm (s s' : S)  (h : Good s) (hf : s.f = .arm) (hs : step s .fstep = some s') : Good s' := by
-  obtain ⟨out, accepted, submitted, interestW, slot, flushing, closing, timerRunning, tick, f, p, c, timedOutEver, results, sat⟩ := s
-  simp only at hf
-  subst hf
-  simp only [step] at hs <;> (repeat' split at hs) <;> (try cases hs) <;>
-    (try (exact good_finish _ _ h rfl)) <;>
-    (try (simp only [Good, inCycle, timedArmed, quiet, preWait] at *
-          refine ⟨by grind, by grind, by grind, by grind, by grind, by grind, by grind, by grind, by grind, by grind, ?_, by grind, by grind⟩
-          intro ht
-          have h11 := h.2.2.2.2.2.2.2.2.2.2.1
-          refine ⟨by grind, by grind, by grind, by grind, by grind, by grind, by grind, by grind, by grind⟩))
-
-theorem fstep_tmoRecv (s s' : S)  (h : Good s) (hf : s.f = .tmoRecv) (hs : step s .fstep = some s') : Good s' := by
-  obtain ⟨out, accepted, submitted, interestW, slot, flushing, closing, timerRunning, tick, f, p, c, timedOutEver, results, sat⟩ := s
-  simp only at hf
-  subst hf
-  simp only [step] at hs <;> (repeat' split at hs) <;> (try cases hs) <;>
-    (try (exact good_finish _ _ h rfl)) <;>
-    (try (simp only [Good, inCycle, timedArmed, quiet, preWait] at *
-          refine ⟨by grind, by grind, by grind, by grind, by grind, by grind, by grind, by grind, by grind, by grind, ?_, by grind, by grind⟩
-          intro ht
-          have h11 := h.2.2.2.2.2.2.2.2.2.2.1
-          refine ⟨by grind, by grind, by grind, by grind, by grind, by grind, by grind, by grind, by grind⟩))
-
-theorem fstep_tmoRw2r (s s' : S)  (h : Good s) (hf : s.f = .tmoRw2r) (hs : step s .fstep = some s') : Good s' := by
-  obtain ⟨out, accepted, submitted, interestW, slot, flushing, closing, timerRunning, tick, f, p, c, timedOutEver, results, sat⟩ := s
-  simp only at hf
-  subst hf
-  simp only [step] at hs <;> (repeat' split at hs) <;> (try cases hs) <;>
-    (try (exact good_finish _ _ h rfl)) <;>
-    (try (simp only [Good, inCycle, timedArmed, quiet, preWait] at *
-          refine ⟨by grind, by grind, by grind, by grind, by grind, by grind, by grind, by grind, by grind, by grind, ?_, by grind, by grind⟩
-          intro ht
-          have h11 := h.2.2.2.2.2.2.2.2.2.2.1
-          refine ⟨by grind, by grind, by grind, by grind, by grind, by grind, by grind, by grind, by grind⟩))
-
-theorem fstep_stopTimer (s s' : S) (r : Result) (h : Good s) (hf : s.f = .stopTimer r) (hs : step s .fstep = some s') : Good s' := by
-  obtain ⟨out, accepted, submitted, interestW, slot, flushing, closing, timerRunning, tick, f, p, c, timedOutEver, results, sat⟩ := s
-  simp only at hf
-  subst hf
-  simp only [step] at hs <;> (repeat' split at hs) <;> (try cases hs) <;>
-    (try (exact good_finish _ _ h rfl)) <;>
-    (try (simp only [Good, inCycle, timedArmed, quiet, preWait] at *
-          refine ⟨by grind, by grind, by grind, by grind, by grind, by grind, by grind, by grind, by grind, by grind, ?_, by grind, by grind⟩
-          intro ht
-          have h11 := h.2.2.2.2.2.2.2.2.2.2.1
-          refine ⟨by grind, by grind, by grind, by grind, by grind, by grind, by grind, by grind, by grind⟩))
-
-theorem fstep_unlock (s s' : S) (r : Result) (h : Good s) (hf : s.f = .unlock r) (hs : step s .fstep = some s') : Good s' := by
-  obtain ⟨out, accepted, submitted, interestW, slot, flushing, closing, timerRunning, tick, f, p, c, timedOutEver, results, sat⟩ := s
-  simp only at hf
-  subst hf
-  simp only [step] at hs <;> (repeat' split at hs) <;> (try cases hs) <;>
-    (try (exact good_finish _ _ h rfl)) <;>
-    (try (simp only [Good, inCycle, timedArmed, quiet, preWait] at *
-          refine ⟨by grind, by grind, by grind, by grind, by grind, by grind, by grind, by grind, by grind, by grind, ?_, by grind, by grind⟩
-          intro ht
-          have h11 := h.2.2.2.2.2.2.2.2.2.2.1
-          refine ⟨by grind, by grind, by grind, by grind, by grind, by grind, by grind, by grind, by grind⟩))
-
-theorem good_step_fstep (s s' : S) (h : Good s) (hs : step s .fstep = some s') : Good s' := by
-  cases hf : s.f with
-  | idle => simp [step, hf] at hs
-  | send t => simp [step, hf] at hs
-  | wait t => simp [step, hf] at hs
-  | chkActive add timed => exact fstep_chkActive s s' add timed h hf hs
-  | lock add timed => exact fstep_lock s s' add timed h hf hs
-  | submit add timed => exact fstep_submit s s' add timed h hf hs
-  | chkEmpty1 timed => exact fstep_chkEmpty1 s s' timed h hf hs
-  | chkEmpty2 timed => exact fstep_chkEmpty2 s s' timed h hf hs
-  | r2rw timed => exact fstep_r2rw s s' timed h hf hs
-  | arm => exact fstep_arm s s' h hf hs
-  | tmoRecv => exact fstep_tmoRecv s s' h hf hs
-  | tmoRw2r => exact fstep_tmoRw2r s s' h hf hs
-  | stopTimer r => exact fstep_stopTimer s s' r h hf hs
-  | unlock r => exact fstep_unlock s s' r h hf hs
-
-theorem good_step_fsend (s s' : S) (k : Nat) (h : Good s) (hs : step s (.fsend k) = some s') : Good s' := by
-  obtain ⟨out, accepted, submitted, interestW, slot, flushing, closing, timerRunning, tick, f, p, c, timedOutEver, results, sat⟩ := s
-  simp only [step, trySend] at hs <;> (repeat' split at hs) <;> (try cases hs) <;>
-    (try (exact good_finish _ _ h rfl)) <;>
-    (try (simp only [Good, inCycle, timedArmed, quiet, preWait] at *
-          refine ⟨by grind, by grind, by grind, by grind, by grind, by grind, by grind, by grind, by grind, by grind, ?_, by grind, by grind⟩
-          intro ht
-          have h11 := h.2.2.2.2.2.2.2.2.2.2.1
-          refine ⟨by grind, by grind, by grind, by grind, by grind, by grind, by grind, by grind, by grind⟩))
-
-theorem good_step_recvSlot (s s' : S)  (h : Good s) (hs : step s (.recvSlot) = some s') : Good s' := by
-  obtain ⟨out, accepted, submitted, interestW, slot, flushing, closing, timerRunning, tick, f, p, c, timedOutEver, results, sat⟩ := s
-  simp only [step, trySend] at hs <;> (repeat' split at hs) <;> (try cases hs) <;>
-    (try (exact good_finish _ _ h rfl)) <;>
-    (try (simp only [Good, inCycle, timedArmed, quiet, preWait] at *
-          refine ⟨by grind, by grind, by grind, by grind, by grind, by grind, by grind, by grind, by grind, by grind, ?_, by grind, by grind⟩
-          intro ht
-          have h11 := h.2.2.2.2.2.2.2.2.2.2.1
-          refine ⟨by grind, by grind, by grind, by grind, by grind, by grind, by grind, by grind, by grind⟩))
-
-theorem good_step_recvTick (s s' : S)  (h : Good s) (hs : step s (.recvTick) = some s') : Good s' := by
-  obtain ⟨out, accepted, submitted, interestW, slot, flushing, closing, timerRunning, tick, f, p, c, timedOutEver, results, sat⟩ := s
-  simp only [step, trySend] at hs <;> (repeat' split at hs) <;> (try cases hs) <;>
-    (try (exact good_finish _ _ h rfl)) <;>
-    (try (simp only [Good, inCycle, timedArmed, quiet, preWait] at *
-          refine ⟨by grind, by grind, by grind, by grind, by grind, by grind, by grind, by grind, by grind, by grind, ?_, by grind, by grind⟩
-          intro ht
-          have h11 := h.2.2.2.2.2.2.2.2.2.2.1
-          refine ⟨by grind, by grind, by grind, by grind, by grind, by grind, by grind, by grind, by grind⟩))
-
-theorem good_step_wevent (s s' : S)  (h : Good s) (hs : step s (.wevent) = some s') : Good s' := by
-  obtain ⟨out, accepted, submitted, interestW, slot, flushing, closing, timerRunning, tick, f, p, c, timedOutEver, results, sat⟩ := s
-  simp only [step, trySend] at hs <;> (repeat' split at hs) <;> (try cases hs) <;>
-    (try (exact good_finish _ _ h rfl)) <;>
-    (try (simp only [Good, inCycle, timedArmed, quiet, preWait] at *
-          refine ⟨by grind, by grind, by grind, by grind, by grind, by grind, by grind, by grind, by grind, by grind, ?_, by grind, by grind⟩
-          intro ht
-          have h11 := h.2.2.2.2.2.2.2.2.2.2.1
-          refine ⟨by grind, by grind, by grind, by grind, by grind, by grind, by grind, by grind, by grind⟩))
-
-theorem good_step_pstep (s s' : S)  (h : Good s) (hs : step s (.pstep) = some s') : Good s' := by
-  obtain ⟨out, accepted, submitted, interestW, slot, flushing, closing, timerRunning, tick, f, p, c, timedOutEver, results, sat⟩ := s
-  simp only [step, trySend] at hs <;> (repeat' split at hs) <;> (try cases hs) <;>
-    (try (exact good_finish _ _ h rfl)) <;>
-    (try (simp only [Good, inCycle, timedArmed, quiet, preWait] at *
-          refine ⟨by grind, by grind, by grind, by grind, by grind, by grind, by grind, by grind, by grind, by grind, ?_, by grind, by grind⟩
-          intro ht
-          have h11 := h.2.2.2.2.2.2.2.2.2.2.1
-          refine ⟨by grind, by grind, by grind, by grind, by grind, by grind, by grind, by grind, by grind⟩))
-
-theorem good_step_psend (s s' : S) (k : Nat) (h : Good s) (hs : step s (.psend k) = some s') : Good s' := by
-  obtain ⟨out, accepted, submitted, interestW, slot, flushing, closing, timerRunning, tick, f, p, c, timedOutEver, results, sat⟩ := s
-  simp only [step, trySend] at hs <;> (repeat' split at hs) <;> (try cases hs) <;>
-    (try (exact good_finish _ _ h rfl)) <;>
-    (try (simp only [Good, inCycle, timedArmed, quiet, preWait] at *
-          refine ⟨by grind, by grind, by grind, by grind, by grind, by grind, by grind, by grind, by grind, by grind, ?_, by grind, by grind⟩
-          intro ht
-          have h11 := h.2.2.2.2.2.2.2.2.2.2.1
-          refine ⟨by grind, by grind, by grind, by grind, by grind, by grind, by grind, by grind, by grind⟩))
-
-theorem good_step_close (s s' : S)  (h : Good s) (hs : step s (.close) = some s') : Good s' := by
-  obtain ⟨out, accepted, submitted, interestW, slot, flushing, closing, timerRunning, tick, f, p, c, timedOutEver, results, sat⟩ := s
-  simp only [step, trySend] at hs <;> (repeat' split at hs) <;> (try cases hs) <;>
-    (try (exact good_finish _ _ h rfl)) <;>
-    (try (simp only [Good, inCycle, timedArmed, quiet, preWait] at *
-          refine ⟨by grind, by grind, by grind, by grind, by grind, by grind, by grind, by grind, by grind, by grind, ?_, by grind, by grind⟩
-          intro ht
-          have h11 := h.2.2.2.2.2.2.2.2.2.2.1
-          refine ⟨by grind, by grind, by grind, by grind, by grind, by grind, by grind, by grind, by grind⟩))
-
-theorem good_step_cstep (s s' : S)  (h : Good s) (hs : step s (.cstep) = some s') : Good s' := by
-  obtain ⟨out, accepted, submitted, interestW, slot, flushing, closing, timerRunning, tick, f, p, c, timedOutEver, results, sat⟩ := s
-  simp only [step, trySend] at hs <;> (repeat' split at hs) <;> (try cases hs) <;>
-    (try (exact good_finish _ _ h rfl)) <;>
-    (try (simp only [Good, inCycle, timedArmed, quiet, preWait] at *
-          refine ⟨by grind, by grind, by grind, by grind, by grind, by grind, by grind, by grind, by grind, by grind, ?_, by grind, by grind⟩
-          intro ht
-          have h11 := h.2.2.2.2.2.2.2.2.2.2.1
-          refine ⟨by grind, by grind, by grind, by grind, by grind, by grind, by grind, by grind, by grind⟩))
-
-theorem good_step_fire (s s' : S)  (h : Good s) (hs : step s (.fire) = some s') : Good s' := by
-  obtain ⟨out, accepted, submitted, interestW, slot, flushing, closing, timerRunning, tick, f, p, c, timedOutEver, results, sat⟩ := s
-  simp only [step, trySend] at hs <;> (repeat' split at hs) <;> (try cases hs) <;>
-    (try (exact good_finish _ _ h rfl)) <;>
-    (try (simp only [Good, inCycle, timedArmed, quiet, preWait] at *
-          refine ⟨by grind, by grind, by grind, by grind, by grind, by grind, by grind, by grind, by grind, by grind, ?_, by grind, by grind⟩
-          intro ht
-          have h11 := h.2.2.2.2.2.2.2.2.2.2.1
-          refine ⟨by grind, by grind, by grind, by grind, by grind, by grind, by grind, by grind, by grind⟩))
-
-theorem good_step (s s' : S) (a : Act) (h : Good s) (hs : step s a = some s') : Good s' := by
-  cases a with
-  | flush add timed => exact good_step_flush s s' add timed h hs
-  | flush2 => exact good_step_flush2 s s' h hs
-  | fstep => exact good_step_fstep s s' h hs
-  | fsend k => exact good_step_fsend s s' k h hs
-  | recvSlot => exact good_step_recvSlot s s' h hs
-  | recvTick => exact good_step_recvTick s s' h hs
-  | wevent => exact good_step_wevent s s' h hs
-  | pstep => exact good_step_pstep s s' h hs
-  | psend k => exact good_step_psend s s' k h hs
-  | close => exact good_step_close s s' h hs
-  | cstep => exact good_step_cstep s s' h hs
-  | fire => exact good_step_fire s s' h hs
-
-theorem good_run (acts : List Act) (s0 s : S) (h0 : Good s0) (hrun : run s0 acts = some s) : Good s := by
-  induction acts generalizing s0 with
-  | nil => simp [run] at hrun; subst hrun; exact h0
-  | cons a rest ih =>
-    simp only [run] at hrun
-    split at hrun
-    · simp at hrun
-    · rename_i s1 h1
-      exact ih s1 (good_step s0 s1 a h0 h1) hrun
 
 /-- **C08_accounting.** In every interleaving and for every kernel acceptance pattern, what the kernel has
 accepted plus what is still buffered is exactly what the Flush calls submitted: nothing is lost or sent twice
 by the hand-off between the flushing goroutine and the poller. -/
 theorem C08_accounting (acts : List Act) (s : S) (hr : run init acts = some s) : s.accepted + s.out = s.submitted :=
-  (good_run acts init s good_init hr).1
+  (good_run acts init s good_init hr).acc
 
 /-- **C08_nil_means_sent_partial.** As long as no Flush on the connection has returned ErrWriteTimeout,
 every Flush that returned nil did so with the output buffer empty, i.e. (by C08_accounting) after the kernel
 accepted every submitted byte.  PARTIAL: the hypothesis excludes known finding D9 (`C08_D9_witness`). -/
 theorem C08_nil_means_sent_partial (acts : List Act) (s : S) (hr : run init acts = some s) (hto : s.timedOutEver = false) :
     ∀ x ∈ s.results, x.1 = .ok → x.2.1 = 0 :=
-  ((good_run acts init s good_init hr).2.2.2.2.2.2.2.2.2.2.1 hto).2.2.2.2.2.2.2.2
+  (good_run acts init s good_init hr).r9 hto
 
 /-- **C08_no_lost_wakeup_partial.** A parked flusher is never stranded: if the connection is still open the
 descriptor is registered for writability (the poller will get the write event) or the poller is about to
-trigger; if the buffer has been drained the trigger is on its way or in the slot; if the connection has been
-closed the closer's token is on its way or in the slot.  (PARTIAL: first two parts under "no earlier timeout".) -/
+trigger; if the buffer has been drained the poller is still inside that event (it will trigger) or the trigger is
+in the slot; if the connection has been closed the closer's token is on its way or in the slot.
+(PARTIAL: first two parts under "no earlier timeout".) -/
 theorem C08_no_lost_wakeup_partial (acts : List Act) (s : S) (hr : run init acts = some s) (t : Bool) (hw : s.f = .wait t) :
     (s.timedOutEver = false → s.slot = none → (s.closing = 0 → s.interestW = true ∨ s.p = .rw2rTrig) ∧
-        (s.out = 0 → s.p = .rw2rCtl ∨ s.p = .rw2rTrig)) ∧
+        (s.out = 0 → s.p = .ackChk ∨ s.p = .rw2rCtl ∨ s.p = .rw2rTrig)) ∧
     (s.closing ≠ 0 → s.c = .trig ∨ s.slot ≠ none) := by
   have hg := good_run acts init s good_init hr
   refine ⟨?_, ?_⟩
   · intro hto hs
-    exact (hg.2.2.2.2.2.2.2.2.2.2.1 hto).2.2.2.2.2.2.1 t (Or.inl hw) hs
+    exact hg.r7 hto t (Or.inl hw) hs
   · intro hc
-    exact hg.2.2.2.2.2.2.2.2.2.2.2.1 (by simp [hw, preWait]) hc
+    exact hg.pw (by simp [hw, preWait]) hc
 
-/-- **C08_timer_cleanup_never_blocks**: `if !timer.Stop() { <-timer.C }` always finds the timer running or its tick. -/
-theorem C08_timer_cleanup_never_blocks (acts : List Act) (s : S) (hr : run init acts = some s) (r : Result)
-    (hf : s.f = .stopTimer r) : s.timerRunning = true ∨ s.tick = true :=
-  (good_run acts init s good_init hr).2.2.2.2.2.2.2.2.2.2.2.2 r hf
+/-- **C08_timer_cleanup_never_blocks**: `if !timer.Stop() { <-timer.C }` always finds the timer running or its tick;
+between calls the timer is stopped and its channel empty. -/
+theorem C08_timer_cleanup_never_blocks (acts : List Act) (s : S) (hr : run init acts = some s) :
+    (∀ r, s.f = .stopTimer r → s.timerRunning = true ∨ s.tick = true) ∧
+    (s.f = .idle → s.timerRunning = false ∧ s.tick = false) := by
+  have hg := good_run acts init s good_init hr
+  exact ⟨hg.st, fun hi => hg.tmr3 (by simp [hi, timedArmed])⟩
 
 /-- **C08_concurrent_rejected**: a Flush issued while another holds `flushing` fails its `lock` and changes nothing. -/
 theorem C08_concurrent_rejected (s s' : S) (h : step s .flush2 = some s') : s' = s ∧ s.flushing = 1 := by
@@ -397,21 +62,54 @@ theorem C08_concurrent_rejected (s s' : S) (h : step s .flush2 = some s') : s' =
   · rename_i hc; cases h; exact ⟨rfl, hc.2⟩
   · simp at h
 
-/-- **C08_single_flusher**: the `flushing` word is held by exactly the goroutine inside Flush. -/
-theorem C08_single_flusher (acts : List Act) (s : S) (hr : run init acts = some s) : s.flushing ≤ 1 :=
-  (good_run acts init s good_init hr).2.2.2.2.1
+/-- **C08_single_flusher**: `flushing` is 1 exactly while a call is between its successful `lock(flushing)` and its
+deferred unlock (so at most one goroutine is inside flush()/waitFlush()); the value 2 (finalizer) appears only after a close. -/
+theorem C08_single_flusher (acts : List Act) (s : S) (hr : run init acts = some s) :
+    s.flushing ≤ 2 ∧ (s.flushing = 1 ↔ preLock s.f = false) ∧ (s.flushing = 2 → s.closing ≠ 0) := by
+  have hg := good_run acts init s good_init hr
+  refine ⟨hg.lk0, ⟨?_, hg.lk2⟩, hg.lk3⟩
+  intro h1
+  cases hp : preLock s.f with
+  | false => rfl
+  | true => have := hg.lk1 hp; omega
+
+/-- **C08_finalizer_waits**: the finalizer's `stop(flushing)` succeeds only while no Flush holds the lock, and from then
+on no Flush can take it: the buffers are not closed under a goroutine that is inside flush()/waitFlush(). -/
+theorem C08_finalizer_waits (acts : List Act) (s s' : S) (hr : run init acts = some s) (h : step s .stopF = some s') :
+    preLock s.f = true ∧ s'.flushing = 2 ∧ s'.f = s.f := by
+  have hg := good_run acts init s good_init hr
+  simp only [step] at h
+  split at h
+  · rename_i hc
+    cases h
+    refine ⟨?_, rfl, rfl⟩
+    cases hp : preLock s.f with
+    | true => rfl
+    | false => have := hg.lk2 hp; omega
+  · simp at h
 
 /-- **Witness of known finding D9.** Flush #1 (timed) hits EAGAIN, registers for writability and times out while
 the poller is inside its write event; the poller then drains the buffer and leaves `nil` in writeTrigger.
 Flush #2 submits 5 bytes, hits EAGAIN, waits - and returns nil at once on the stale token with 5 bytes unsent. -/
 theorem C08_D9_witness :
     (run init [.flush 10 true, .fstep, .fstep, .fstep, .fstep, .fsend 0, .fstep, .fstep, .fstep, .wevent, .pstep, .fire,
-               .recvTick, .fstep, .fstep, .psend 10, .pstep, .pstep, .fstep,
+               .recvTick, .fstep, .fstep, .psend 10, .pstep, .pstep, .pstep, .fstep,
                .flush 5 false, .fstep, .fstep, .fstep, .fstep, .fsend 0, .fstep, .fstep, .recvSlot, .fstep]).map
-      (fun s => (s.results.head?, s.out)) = some (some (.ok, 5, true), 5) := by decide
+      (fun s => (s.results.head?, s.out)) = some (some (.ok, 5, true), 5) := by rfl
 
-/-- non-vacuity: a Flush that hits EAGAIN, waits, and is completed by the poller returns nil with everything accepted -/
-example : (run init [.flush 10 false, .fstep, .fstep, .fstep, .fstep, .fsend 3, .fstep, .fstep, .wevent, .pstep, .psend 7, .pstep, .pstep,
-    .recvSlot, .fstep]).map (fun s => (s.results.head?, s.accepted, s.timedOutEver)) = some (some (.ok, 0, false), 10, false) := by decide
+/-- the same finding through the expired-deadline branch: ErrWriteTimeout is returned with the write interest still
+registered; the poller's later write event drains and triggers; the next Flush returns nil with 5 bytes unsent. -/
+theorem C08_D9_expired_deadline_witness :
+    (run init [.flushX 10, .fstep, .fstep, .fstep, .fstep, .fsend 0, .fstep, .fstep, .fstep,
+               .wevent, .pstep, .psend 10, .pstep, .pstep, .pstep,
+               .flush 5 false, .fstep, .fstep, .fstep, .fstep, .fsend 0, .fstep, .fstep, .recvSlot, .fstep]).map
+      (fun s => (s.results.head?, s.out)) = some (some (.ok, 5, true), 5) := by rfl
+
+/-- non-vacuity: a Flush that hits EAGAIN, waits, and is completed by the poller returns nil with everything accepted;
+a Flush that passed IsActive before a close + finalizer gets ErrConcurrentAccess -/
+example : (run init [.flush 10 false, .fstep, .fstep, .fstep, .fstep, .fsend 3, .fstep, .fstep, .wevent, .pstep, .psend 7, .pstep, .pstep, .pstep,
+    .recvSlot, .fstep]).map (fun s => (s.results.head?, s.accepted, s.timedOutEver)) = some (some (.ok, 0, false), 10, false) := by rfl
+example : (run init [.flush 4 false, .fstep, .close, .cstep, .stopF, .fstep]).map (fun s => (s.results.head?, s.flushing)) =
+    some (some (.errConcurrent, 0, false), 2) := by rfl
 
 end Netpoll.Props.C08
